@@ -346,7 +346,7 @@ def _impl_grid(case, build, out):
     opts = dict(use_argvals_stand=case["stand"], method_integration=case["integ"])
     w = float(F(case["w"]))
     is_basis = case["type"].startswith("basis")
-    shape = _grid_vals(build()).shape if not (is_basis and False) else None
+    shape = _grid_vals(build()).shape
 
     def center():
         c = build().center()
